@@ -307,6 +307,7 @@ func init() {
 			cfg.Origins = i%6 == 0
 			cfg.KeptBias = i%2 == 0
 			cfg.SmallPool = i%4 == 1
+			cfg.OtherAssetLead = i%7 == 2
 			switch i % 10 {
 			case 3:
 				cfg.Directed = "keptSpan"
